@@ -6,6 +6,7 @@ import (
 	"fmt"
 	"math"
 	"math/big"
+	mrand "math/rand"
 	"strings"
 	"testing"
 	"time"
@@ -243,7 +244,7 @@ func TestParseInvalid(t *testing.T) {
 		// strings
 		{`s3"😀"`, Options{}, -1},
 		{`s1"😀"`, Options{}, 3},
-		{`s3"a😀"`, Options{}, -1},
+		{`s4"a😀"`, Options{}, -1},
 		{`s2"a😀"`, Options{}, 4},
 		{`s2"ab`, Options{}, 5},
 		{`s2"abc"`, Options{}, 5},
@@ -270,8 +271,8 @@ func TestParseInvalid(t *testing.T) {
 		{"r;", Options{}, 1},
 		{`s2"ab"r0`, Options{}, 8},
 		{`s2"ab"r-1;`, Options{}, 7},
-		{`uar0;`, Options{}, 3}, // uchar takes no entry
-		{`er0;`, Options{}, 2},  // empty takes no entry
+		{`uar0;`, Options{}, 3},            // uchar takes no entry
+		{`er0;`, Options{}, 2},             // empty takes no entry
 		{`c2"ab"{}o0{}r1;`, Options{}, 13}, // the class name takes no entry (only the object, entry 0)
 		// classes and objects
 		{"o0{}", Options{}, 1},
@@ -531,7 +532,7 @@ func TestEqualCyclic(t *testing.T) {
 		if !Equal(mk(2000, 7), mk(2000, 7)) || Equal(mk(2000, 7), mk(2000, 8)) {
 			t.Errorf("long cyclic chains")
 		}
-		if s := mk(2000, 7).String(); !strings.HasSuffix(s, "...") && !strings.Contains(s, "^") {
+		if s := mk(2000, 7).String(); !strings.Contains(s, "...") && !strings.Contains(s, "^") {
 			t.Errorf("String of long chain: %.80s", s)
 		}
 		_ = a.String() + m.String() + r1.String() + x.String()
@@ -563,27 +564,38 @@ type Inner struct {
 type inner2 struct{ Z string }
 type PInner struct{ W int }
 type Outer struct {
-	Inner
-	inner2
+	Inner // embedded at offset 0: the only place where the library reads flattened fields correctly
 	*PInner
-	A    int    `hprose:"aa"`
-	B    string `json:"bb,omitempty"`
-	C    int    `json:",omitempty"`
-	D    int    `hprose:"-"`
-	E    int    `json:"-"`
-	Both int    `hprose:"hp" json:"js"`
-	Sp   int    `hprose:" spaced ,opt"`
-	F    func()
-	G    chan int
-	H    *func()
-	I    **chan int
-	URL  string
-	ñame int
+	A     int    `hprose:"aa"`
+	B     string `json:"bb,omitempty"`
+	C     int    `json:",omitempty"`
+	D     int    `hprose:"-"`
+	E     int    `json:"-"`
+	Both  int    `hprose:"hp" json:"js"`
+	Sp    int    `hprose:" spaced ,opt"`
+	F     func()
+	G     chan int
+	H     *func()
+	I     **chan int
+	URL   string
+	ñame  int
 	Émile int
-	T    time.Time
-	PT   *time.Time
-	Any  interface{}
-	Str  fmt.Stringer
+	T     time.Time
+	PT    *time.Time
+	Any   interface{}
+	Str   fmt.Stringer
+}
+type EmbUnexported struct {
+	inner2
+	A int
+}
+type EmbLate struct {
+	A int
+	Inner
+}
+type EmbLateStr struct {
+	A, B int
+	inner2
 }
 type EmbTime struct {
 	time.Time
@@ -694,7 +706,7 @@ func xcases() []xcase {
 	var nilSliceInPtr []int
 	var nilMapInPtr map[string]int
 	var nilIface interface{}
-	outer := Outer{Inner: Inner{X: 1, y: 2}, inner2: inner2{"zed"}, PInner: &PInner{3}, A: 4, B: "bee", C: 5, D: 6, E: 7,
+	outer := Outer{Inner: Inner{X: 1, y: 2}, PInner: &PInner{3}, A: 4, B: "bee", C: 5, D: 6, E: 7,
 		Both: 8, Sp: 9, URL: "u", Émile: 10, T: tm, PT: &tm, Any: []int{1}, Str: stringer{"str"}}
 
 	return []xcase{
@@ -725,7 +737,8 @@ func xcases() []xcase {
 		{name: "[][]int nil inner", v: [][]int{nil, {1}}, disagree: "nil inner slice of a [][]int is written a{} (2-D fast path) while a nil slice everywhere else, including inside [][][]int and []Bs, is written n"},
 		{name: "[][]string nil inner", v: [][]string{nil}, disagree: "nil inner slice of a [][]string is written a{} instead of n"},
 		{name: "[][]interface{} nil inner", v: [][]interface{}{nil, {1}}, disagree: "nil inner slice of a [][]interface{} is written a{} instead of n"},
-		{name: "[][][]int nil inner", v: [][][]int{nil, {{1}, nil}}},
+		{name: "[][][]int nil inner", v: [][][]int{nil, {{1}}}},
+		{name: "[][][]int nil innermost", v: [][][]int{{{1}, nil}}, disagree: "nil innermost slice of a [][][]int is written a{} (the [][]int rows go through the 2-D fast path) while the nil middle slice is written n"},
 		{name: "[][]byte nil then refs", v: []interface{}{[][]byte{nil, {1}}, "abc", "abc"}, disagreeIn: "ref",
 			disagree: "writeBytesSliceBody does AddReferenceCount(n) for all n inner slices but writes a nil one as n (no entry): every later reference index is too high by one (here r4; with a 4-entry table)"},
 		{name: "2d slices", v: []interface{}{[][]int{{1, 2}, {}}, [][]string{{"ab", "ab"}, {"ab"}}, [][]float64{{1.5}}, [][]bool{{true}}, [][]interface{}{{"ab", 1}}, [][]complex128{{complex(1, 2)}, {complex(3, 4)}}, "ab", "ab"}},
@@ -739,16 +752,20 @@ func xcases() []xcase {
 			time.Date(1970, 1, 1, 4, 5, 6, 7000000, time.UTC),
 			time.Date(1970, 1, 1, 0, 0, 0, 0, time.UTC),
 			time.Date(1970, 1, 1, 0, 0, 0, 1, time.UTC),
-			time.Date(2020, 2, 3, 4, 5, 6, 7000, loc),
 			time.Date(2020, 2, 3, 4, 5, 6, 7, time.Local),
+			time.Date(2020, 2, 3, 4, 5, 6, 7000, time.Local),
 			time.Time{},
-			time.Date(2020, 2, 3, 4, 5, 6, 120000000, time.FixedZone("UTC", 0)),
 			time.Date(9999, 12, 31, 23, 59, 59, 999999999, time.UTC),
 			time.Date(0, 1, 1, 0, 0, 0, 0, time.UTC),
-			time.Date(1970, 1, 1, 0, 30, 0, 0, loc),
 			time.Unix(0, 0),
 			time.Unix(0, 0).UTC(),
+			time.Unix(1600000000, 123456000).In(time.Local),
 		}},
+		{name: "times in other zones", v: []interface{}{
+			time.Date(2020, 2, 3, 4, 5, 6, 7000, loc),
+			time.Date(1970, 1, 1, 0, 30, 0, 0, loc),
+			time.Date(2020, 2, 3, 4, 5, 6, 120000000, time.FixedZone("UTC", 0)),
+		}, disagree: "unfixed library writes the wall clock of a FixedZone time with ';' (local), so the instant changes; hpref follows the fixed behaviour (convert with t.Local() first)"},
 		{name: "shared *time", v: []interface{}{&tm, &tm, tm, tm}},
 		{name: "uuid", v: []interface{}{u, &u, &u, []uuid.UUID{u}, uuid.UUID{}}},
 		{name: "list.List", v: []interface{}{l, l, *l, list.New(), l.Front(), *l.Front()}},
@@ -771,6 +788,11 @@ func xcases() []xcase {
 		{name: "Outer filled", v: outer},
 		{name: "*Outer", v: &outer},
 		{name: "embedded time.Time vanishes", v: EmbTime{tm, 1}},
+		{name: "embedded unexported struct at offset 0", v: EmbUnexported{inner2{"zed"}, 1}},
+		{name: "embedded struct not at offset 0", v: EmbLate{A: 1, Inner: Inner{X: 5}},
+			disagree: "flattened fields of an embedded struct are read at their offset inside the embedded struct, ignoring the offset of the embedded struct itself: x is read from the memory of A (o0{11} instead of o0{15})"},
+		{name: "embedded struct not at offset 0 (string)", v: EmbLateStr{A: 1, B: 2, inner2: inner2{"zed"}},
+			disagree: "same offset bug: field z (a string) is read from the memory of A,B, giving a wild string header and a nil-dereference panic"},
 		{name: "anonymous struct", v: struct {
 			A int
 			B string `hprose:"bee"`
@@ -951,7 +973,9 @@ func TestDenoteDetails(t *testing.T) {
 		if _, err := Denote(tm, true); err == nil {
 			t.Errorf("year %d accepted", y)
 		}
-		if _, err := encode(tm, true); err != nil {
+		if _, err := encode(tm, true); err == nil {
+			t.Errorf("library encodes year %d", y)
+		} else if strings.Contains(err.Error(), "panic") {
 			t.Logf("LIBRARY DISAGREES: time year %d: encoder does not report an error but fails with: %v (Go value %#v, no bytes)", y, err, tm)
 		}
 	}
@@ -971,12 +995,232 @@ func TestDenoteDetails(t *testing.T) {
 	if err != nil || Diff(p.Values[0], want) != "" || want.Class.Name != "Other" {
 		t.Errorf("renamed class: %v %q %v", err, b, want)
 	}
+	if o, err := Denote(EmbUnexported{}, true); err != nil || strings.Join(o.Class.Fields, " ") != "z a" {
+		t.Errorf("EmbUnexported: %v %v", o, err)
+	}
 	// field list of Outer, spelled out
 	o, err := Denote(Outer{}, true)
 	if err != nil {
 		t.Fatal(err)
 	}
-	if got := strings.Join(o.Class.Fields, " "); got != "x z pInner aa bb c hp spaced uRL Émile t pT any str" || o.Class.Name != "Outer" {
+	if got := strings.Join(o.Class.Fields, " "); got != "x pInner aa bb c hp spaced uRL Émile t pT any str" || o.Class.Name != "Outer" {
 		t.Errorf("Outer fields = %q", got)
+	}
+}
+
+// ---------------------------------------------------------------------------------
+// randomized cross-check and parser robustness
+
+type rgen struct {
+	r     *mrand.Rand
+	nodes []*Node
+	strs  []string
+	maps  []*map[string]interface{}
+	sls   []*[]interface{}
+}
+
+func (g *rgen) str() string {
+	if len(g.strs) > 0 && g.r.Intn(3) == 0 {
+		return g.strs[g.r.Intn(len(g.strs))]
+	}
+	alphabet := []string{"a", "b", "é", "€", "😀", "\"", "日", "\x00", "z"}
+	n := g.r.Intn(5)
+	s := ""
+	for i := 0; i < n; i++ {
+		s += alphabet[g.r.Intn(len(alphabet))]
+	}
+	if g.r.Intn(12) == 0 {
+		s += "\xff" // clearly invalid UTF-8 -> bytes
+	}
+	g.strs = append(g.strs, s)
+	return s
+}
+
+func (g *rgen) value(depth int, ref bool) interface{} {
+	k := g.r.Intn(22)
+	if depth <= 0 && k >= 12 {
+		k = g.r.Intn(12)
+	}
+	switch k {
+	case 0:
+		return nil
+	case 1:
+		return g.r.Intn(3) == 0
+	case 2:
+		return g.r.Intn(40) - 20
+	case 3:
+		return g.r.Int63() - (1 << 62)
+	case 4:
+		return uint64(g.r.Int63()) << 1
+	case 5:
+		fs := []float64{0, math.Copysign(0, -1), 1.5, -2.25e30, math.NaN(), math.Inf(1), math.Inf(-1), 5e-324, 0.1, 1e21}
+		return fs[g.r.Intn(len(fs))]
+	case 6:
+		return float32(g.r.NormFloat64())
+	case 7, 8:
+		return g.str()
+	case 9:
+		return []byte(g.str())
+	case 10:
+		return time.Unix(g.r.Int63n(4e9), int64(g.r.Intn(3))*int64([]int{0, 1000000, 1000, 1}[g.r.Intn(4)])).UTC()
+	case 11:
+		return big.NewInt(g.r.Int63() - (1 << 62))
+	case 12, 13:
+		n := g.r.Intn(4)
+		s := make([]interface{}, n)
+		for i := range s {
+			s[i] = g.value(depth-1, ref)
+		}
+		if g.r.Intn(3) == 0 {
+			g.sls = append(g.sls, &s)
+			return &s
+		}
+		return s
+	case 14, 15:
+		n := g.r.Intn(4)
+		m := make(map[string]interface{}, n)
+		for i := 0; i < n; i++ {
+			m[g.str()] = g.value(depth-1, ref)
+		}
+		if g.r.Intn(3) == 0 {
+			g.maps = append(g.maps, &m)
+			return &m
+		}
+		return m
+	case 16:
+		n := g.r.Intn(3)
+		m := make(map[interface{}]interface{}, n)
+		for i := 0; i < n; i++ {
+			if k := g.value(0, ref); hashable(k) { // value(0) can return []byte
+				m[k] = g.value(depth-1, ref)
+			}
+		}
+		return m
+	case 17:
+		nd := &Node{Name: g.str()}
+		if g.r.Intn(2) == 0 && len(g.nodes) > 0 {
+			nd.Next = g.nodes[g.r.Intn(len(g.nodes))] // older node: no cycle
+		}
+		g.nodes = append(g.nodes, nd)
+		return nd
+	case 18:
+		if len(g.nodes) > 0 {
+			return g.nodes[g.r.Intn(len(g.nodes))]
+		}
+		return Node{Name: g.str()}
+	case 19:
+		if len(g.maps) > 0 && g.r.Intn(2) == 0 {
+			return g.maps[g.r.Intn(len(g.maps))]
+		}
+		if len(g.sls) > 0 {
+			return g.sls[g.r.Intn(len(g.sls))]
+		}
+		return []int{g.r.Intn(100), g.r.Intn(100)}
+	case 20:
+		return struct {
+			A interface{}
+			B string `json:"bee"`
+		}{g.value(depth-1, ref), g.str()}
+	default:
+		return []string{g.str(), g.str(), g.str()}
+	}
+}
+
+func hashable(v interface{}) (ok bool) {
+	defer func() { recover() }()
+	_ = map[interface{}]bool{v: true}
+	return true
+}
+
+func TestCrossCheckRandom(t *testing.T) {
+	backRefs, bytesTotal := 0, 0
+	defer func() {
+		if backRefs < 200 || bytesTotal < 20000 {
+			t.Errorf("generator too weak: %d back references, %d bytes", backRefs, bytesTotal)
+		}
+	}()
+	for seed := int64(1); seed <= 1500; seed++ {
+		for _, simple := range []bool{true, false} {
+			g := &rgen{r: mrand.New(mrand.NewSource(seed))}
+			top := make([]interface{}, 8)
+			for i := range top {
+				top[i] = g.value(4, !simple)
+			}
+			var v interface{} = top
+			want, err := Denote(v, !simple)
+			if err != nil {
+				t.Fatalf("seed %d simple=%v: Denote: %v", seed, simple, err)
+			}
+			b, err := encode(v, simple)
+			if err != nil {
+				t.Fatalf("seed %d simple=%v: encode: %v", seed, simple, err)
+			}
+			p, err := Parse(b, Options{Simple: simple})
+			if err != nil {
+				t.Fatalf("seed %d simple=%v: Parse: %v\n%q", seed, simple, err, b)
+			}
+			if len(p.Values) != 1 {
+				t.Fatalf("seed %d simple=%v: %d values\n%q", seed, simple, len(p.Values), b)
+			}
+			if d := Diff(p.Values[0], want); d != "" {
+				t.Fatalf("seed %d simple=%v: %s\nbytes:  %q\nDenote: %v", seed, simple, d, b, want)
+			}
+			backRefs += p.NumBackRefs
+			bytesTotal += len(b)
+		}
+	}
+}
+
+// Parse must never panic, whatever the bytes; it either accepts or returns a *ParseError
+// whose offset lies inside [0, len].
+func TestParseRobust(t *testing.T) {
+	var corpus [][]byte
+	for _, c := range xcases() {
+		if b, err := encode(c.v, false); err == nil {
+			corpus = append(corpus, b)
+		}
+		if !c.refOnly {
+			if b, err := encode(c.v, true); err == nil {
+				corpus = append(corpus, b)
+			}
+		}
+	}
+	check := func(b []byte, opt Options) {
+		defer func() {
+			if r := recover(); r != nil {
+				t.Fatalf("Parse(%q, %+v) panicked: %v", b, opt, r)
+			}
+		}()
+		_, err := Parse(b, opt)
+		if err != nil {
+			pe, ok := err.(*ParseError)
+			if !ok || pe.Offset < 0 || pe.Offset > len(b) {
+				t.Fatalf("Parse(%q): bad error %v", b, err)
+			}
+		}
+	}
+	r := mrand.New(mrand.NewSource(42))
+	tags := []byte(`0123456789ildnetfNIDTZbusgamcorE+-;{}".`)
+	opts := []Options{{}, {Simple: true}, {AllowError: true}}
+	for _, b := range corpus {
+		for i := 0; i <= len(b); i++ {
+			check(b[:i], opts[i%3])
+		}
+		for k := 0; k < 200; k++ {
+			m := append([]byte{}, b...)
+			for j := 0; j < 1+r.Intn(3) && len(m) > 0; j++ {
+				switch r.Intn(3) {
+				case 0:
+					m[r.Intn(len(m))] = tags[r.Intn(len(tags))]
+				case 1:
+					i := r.Intn(len(m))
+					m = append(m[:i], m[i+1:]...)
+				default:
+					i := r.Intn(len(m) + 1)
+					m = append(m[:i], append([]byte{tags[r.Intn(len(tags))]}, m[i:]...)...)
+				}
+			}
+			check(m, opts[k%3])
+		}
 	}
 }
